@@ -545,9 +545,18 @@ func (f *FuncCFG) paramArg(obj types.Object, pt Point) (ast.Expr, Point, bool) {
 
 // Resolve follows e (evaluated at pt) through the parameters of expanded helpers and through
 // single reaching definitions to the expression it stands for.
-func (f *FuncCFG) Resolve(e ast.Expr, pt Point) (ast.Expr, Point) {
+func (f *FuncCFG) Resolve(e ast.Expr, pt Point) (ast.Expr, Point) { return f.resolve(e, pt, true) }
+
+// ResolveToCall is Resolve that stops at the first call it reaches (it does not look into the
+// return value of an expanded helper): "which call produced this value".
+func (f *FuncCFG) ResolveToCall(e ast.Expr, pt Point) (ast.Expr, Point) { return f.resolve(e, pt, false) }
+
+func (f *FuncCFG) resolve(e ast.Expr, pt Point, intoHelpers bool) (ast.Expr, Point) {
 	for steps := 0; steps < 12; steps++ {
 		if c, isCall := ast.Unparen(e).(*ast.CallExpr); isCall {
+			if !intoHelpers {
+				break
+			}
 			// the value of an expanded helper with a single return site is what it returns
 			if reg := f.regionByCall(c); reg != nil && len(reg.rets) == 1 && len(reg.rets[0].results) == 1 {
 				e, pt = reg.rets[0].results[0], reg.rets[0].pt
@@ -571,7 +580,7 @@ func (f *FuncCFG) Resolve(e ast.Expr, pt Point) (ast.Expr, Point) {
 			if c, isCall := ast.Unparen(defs[0].Rhs).(*ast.CallExpr); isCall && !pureExpr(f.Info, defs[0].Rhs) {
 				// a value produced by a call: the call is what it stands for (unless the call is
 				// an expanded single-return helper, handled at the top of the loop)
-				if reg := f.regionByCall(c); reg != nil && len(reg.rets) == 1 && len(reg.rets[0].results) == 1 {
+				if reg := f.regionByCall(c); intoHelpers && reg != nil && len(reg.rets) == 1 && len(reg.rets[0].results) == 1 {
 					e, pt = defs[0].Rhs, defs[0].At
 					continue
 				}
